@@ -3,7 +3,7 @@
 From Coq Require Import List NArith ZArith Bool Arith Lia Permutation.
 From StgV Require Import Model.ExitSpec Model.LocatorSpec.
 From StgV Require Import Proofs.NameProofs Proofs.LocatorProofs Proofs.WfProofs.
-From StgV Require Import Proofs.NoPanicBase Proofs.NoPanicExec.
+From StgV Require Import Proofs.NoPanicBase Proofs.NoPanicExec Proofs.UncommitNames.
 From StgV Require Proofs.ChainExec Proofs.ConflictProofs.
 Import ListNotations.
 
@@ -34,7 +34,7 @@ Proof.
     | None => None
     | Some (objs', so) =>
         Some (mkOpened (ensure_patch_refs
-                 (mkWorld objs' (w_branch w) (Some so) (w_prefs w) (w_wt w) (w_unmerged w) (w_base w))
+                 (mkWorld objs' (w_branch w) (Some so) (w_prefs w) (w_wt w) (w_unmerged w) (w_base w) (w_apc w))
                  (empty_state (w_branch w))) (empty_state (w_branch w)) (w_branch w) true)
     end = Some op -> s_applied (op_state op) = [] -> op_base op = w_branch (op_world op)).
   { intros E. destruct (state_commit _ _ _) as [[objs' so]|]; [|discriminate].
@@ -676,15 +676,16 @@ Proof.
     cbn. f_equal. eapply IH; exact Ew.
 Qed.
 
-Lemma run_uncommit_np : forall w n names,
-  Inv w -> stack_ref_has_parent w -> snd (run_uncommit w n names) <> XPanic.
+Lemma run_uncommit_np : forall lower_s, LowerOK lower_s -> forall w n names,
+  Inv w -> stack_ref_has_parent w -> snd (run_uncommit lower_s w n names) <> XPanic.
 Proof.
-  intros w n names Hi Hs. unfold run_uncommit.
+  intros lower_s HL w n names Hi Hs. unfold run_uncommit.
   destruct (fold_right _ _ names) as [pnames|] eqn:Ep; [|discriminate]. apply parsed_names_valid in Ep.
   np_open.
   destruct (negb (head_top_ok op)); [np_leaf|].
   pose proof (on_ok _ _ Eo) as Hop.
   pose proof Hop as [Hiw [Hst Hb]]. pose proof Hst as [Hn _]. apply Inv_iff in Hiw as [[Hcl _] _].
+  cbv zeta.
   match goal with |- snd (match ?p with inl _ => _ | inr _ => _ end) <> XPanic =>
     assert (Hplan : (forall commits pns, p = inr (commits, pns) ->
               names_ok (pns ++ all_of (op_state op))
@@ -696,24 +697,38 @@ Proof.
     - intros commits pns E. destruct n as [k|].
       + destruct (walk_down _ _ _) as [cs|] eqn:Ew; [|discriminate].
         destruct pnames as [|prefix [|? ?]]; try discriminate.
-        destruct (forallb _ _) eqn:Ef; [|discriminate].
-        destruct (check_patchnames _ _) eqn:Ec; [|discriminate]. injection E as <- <-.
-        split; [|split; [eapply walk_down_patch; eauto|]].
-        * apply check_patchnames_ok; [exact Hn| |exact Ec].
-          apply Forall_forall. intros x Hx. now apply (proj1 (forallb_forall _ _) Ef).
-        * apply walk_down_length in Ew. now rewrite map_length, rev_length, seq_length.
-      + destruct (check_patchnames _ _) eqn:Ec; [|discriminate]. cbn [negb] in E.
-        destruct (walk_down _ _ _) as [cs|] eqn:Ew; [|discriminate]. injection E as <- <-.
-        split; [|split; [eapply walk_down_patch; eauto|]].
-        * now apply check_patchnames_ok.
-        * now apply walk_down_length in Ew.
+        * destruct (make_patchnames _ _ _ _) as [gen|] eqn:Eg; [|discriminate]. injection E as <- <-.
+          destruct (gen_names_ok lower_s HL _ _ _ _ Eg) as [Hgl Hgn].
+          split; [now apply Hgn|]. split; [eapply walk_down_patch; eauto|now symmetry].
+        * destruct (forallb _ _) eqn:Ef; [|discriminate].
+          destruct (check_patchnames _ _) eqn:Ec; [|discriminate]. injection E as <- <-.
+          split; [|split; [eapply walk_down_patch; eauto|]].
+          -- apply check_patchnames_ok; [exact Hn| |exact Ec].
+             apply Forall_forall. intros x Hx. now apply (proj1 (forallb_forall _ _) Ef).
+          -- apply walk_down_length in Ew. now rewrite map_length, rev_length, seq_length.
+      + destruct pnames as [|pn0 pnames'].
+        * destruct (walk_down _ _ _) as [cs|] eqn:Ew; [|discriminate].
+          destruct (make_patchnames _ _ _ _) as [gen|] eqn:Eg; [|discriminate]. injection E as <- <-.
+          destruct (gen_names_ok lower_s HL _ _ _ _ Eg) as [Hgl Hgn].
+          split; [now apply Hgn|]. split; [eapply walk_down_patch; eauto|now symmetry].
+        * destruct (check_patchnames _ _) eqn:Ec; [|discriminate]. cbn [negb] in E.
+          destruct (walk_down _ _ _) as [cs|] eqn:Ew; [|discriminate]. injection E as <- <-.
+          split; [|split; [eapply walk_down_patch; eauto|]].
+          -- now apply check_patchnames_ok.
+          -- now apply walk_down_length in Ew.
     - intros res E. destruct n as [k|].
       + destruct (walk_down _ _ _) as [cs|]; [|injection E as <-; discriminate].
         destruct pnames as [|prefix [|? ?]]; try (injection E as <-; discriminate).
-        destruct (forallb _ _); [|injection E as <-; discriminate].
-        destruct (check_patchnames _ _); [discriminate|injection E as <-; discriminate].
-      + destruct (check_patchnames _ _); cbn [negb] in E; [|injection E as <-; discriminate].
-        destruct (walk_down _ _ _); [discriminate|injection E as <-; discriminate]. }
+        * destruct (uncommit_names_fresh lower_s HL (w_objs (op_world op)) (op_state op) cs)
+            as [gen [Eg _]]. rewrite Eg in E. discriminate.
+        * destruct (forallb _ _); [|injection E as <-; discriminate].
+          destruct (check_patchnames _ _); [discriminate|injection E as <-; discriminate].
+      + destruct pnames as [|pn0 pnames'].
+        * destruct (walk_down _ _ _) as [cs|]; [|injection E as <-; discriminate].
+          destruct (uncommit_names_fresh lower_s HL (w_objs (op_world op)) (op_state op) cs)
+            as [gen [Eg _]]. rewrite Eg in E. discriminate.
+        * destruct (check_patchnames _ _); cbn [negb] in E; [|injection E as <-; discriminate].
+          destruct (walk_down _ _ _); [discriminate|injection E as <-; discriminate]. }
   - apply Hplan. reflexivity.
   - destruct Hplan as [Hplan _]. destruct (Hplan commits pns eq_refl) as [Hnn [Hcc Hlen]]. clear Hplan Epl.
     rewrite Hlen, Nat.eqb_refl. cbn [negb].
@@ -990,7 +1005,7 @@ Proof.
   destruct x; try exact Hx; try discriminate.
   pose proof (Inv_reset_hard w2 target (tree_of (w_objs w2) target) false Hi2
                 (is_plain_ext _ _ _ He2 Et)) as Hi3.
-  set (w3 := mkWorld _ _ _ _ _ _ _) in *.
+  set (w3 := mkWorld _ _ _ _ _ _ _ _) in *.
   assert (Hs3 : stack_ref_has_parent w3)
     by (eapply sref_dep; [| |exact Hs2]; [apply store_extends_refl|reflexivity]).
   destruct (open_stack PRequire w3) as [op3|] eqn:Eo3; [|np_leaf].
@@ -1126,4 +1141,52 @@ Proof.
   apply transact_np; [exact Hop|apply Eo| | |apply frame_squash_closure].
   - intros W. apply squash_closure_wf; [exact W|]. now apply squash_pre_begin.
   - intros W U N. apply squash_closure_np; [exact W|exact U|exact N|]. now apply squash_pre_begin.
+Qed.
+
+(* ---------------------------------------------------------------- pick *)
+
+Lemma pick_body_np : forall pn o na t,
+  wf_txn t -> uinv t -> names_ok (pn :: t_all t) -> is_patch_commit (t_objs t) o ->
+  nsat uinv (pick_body pn o na t).
+Proof.
+  intros pn o na t W U Hn Ho. unfold pick_body.
+  destruct (squash_finish_pre pn o [] (negb na) t W Hn Ho (NoDup_nil _)) as (t3 & -> & W3 & Eu3 & Es3 & Hd3 & Hin3).
+  { intros n []. }
+  cbn [tbind].
+  assert (U3 : uinv t3) by (eapply uinv_up_some; [exact Eu3|exact Es3|exact U]).
+  destruct na; cbn [negb] in *; [exact U3|].
+  apply push_patches_np0; [exact W3|exact U3|exact Hd3|exact Hin3].
+Qed.
+
+Lemma pick_cand_ok : forall lower_s, LowerOK lower_s ->
+  forall op src given o, exists pn0, pick_cand lower_s op src given o = Ok pn0.
+Proof.
+  intros lower_s HL op src given o. unfold pick_cand.
+  destruct given as [n|]; [now exists n|].
+  destruct src as [n|k|k]; [now exists n| |];
+    destruct (make_valid lower_s HL (subj_of (w_objs (op_world op)) o) false (Some 30%N)) as [n [En _]];
+    now exists n.
+Qed.
+
+Lemma run_pick_np : forall lower_s, LowerOK lower_s ->
+  forall w src nm na,
+  Inv w -> stack_ref_has_parent w -> snd (run_pick lower_s w src nm na) <> XPanic.
+Proof.
+  intros lower_s HL w src nm na Hi Hs.
+  destruct (run_pick_case lower_s w src nm na) as
+    [_|_|op Eo|op given o Eo _ _ _ Hc|op given o pn0 Eo _ _ _ _ Eu|op given o pn0 pn c par Eo Eg _ _ Es Ec Eu _ Ep];
+    cbn [snd]; try discriminate.
+  - exfalso. destruct (pick_cand_ok lower_s HL op src given o) as [pn0 E]. exact (Hc pn0 E).
+  - exfalso. exact (uniquify_never_out_of_fuel _ _ _ Eu).
+  - apply (open_opn _ w _ Hi Hs) in Eo. pose proof (on_ok _ _ Eo) as Hop.
+    pose proof Hop as [_ [[Hn _] _]].
+    assert (Hnn : names_ok (pn :: t_all (begin_txn (pick_op op c par) (pick_opts (w_apc (op_world op)))))).
+    { change (t_all (begin_txn (pick_op op c par) (pick_opts (w_apc (op_world op))))) with (all_of (op_state op)).
+      eapply pick_names_ok; [exact Hn| |exact Eu]. eapply pick_cand_valid; eauto. }
+    apply transact_np.
+    + eapply pick_op_ok; eauto.
+    + unfold pick_op. apply sref_with_objs; [apply store_extends_put|apply Eo].
+    + intros W. apply pick_body_wf; [exact W|exact Hnn|apply patch_commit_new].
+    + intros W U _. apply pick_body_np; [exact W|exact U|exact Hnn|apply patch_commit_new].
+    + apply frame_pick_body.
 Qed.
